@@ -36,11 +36,11 @@ PLAN["C02"] = dict(
 
 PLAN["C03"] = dict(
     level="exploration",
-    engines=["bulk constructors under AddressSanitizer", "bulk constructors under Miri", "held references (free-run, native + ASan)"],
+    engines=["bulk constructors under AddressSanitizer", "bulk constructors under Miri", "held references (free-run, native + ASan)", "window enumeration: writer frozen at every instrumented step of 14 structural operations, reader pins inside the window and holds what it reaches (native + ASan)"],
     assumptions=[
         "ASan only sees a use-after-free while the freed block is still in quarantine; Miri is exact but its workloads are small",
     ],
-    require={"bulk_cases": 100, "references_held_and_reread": 1000, "instances_destroyed_while_round_was_running": 1000},
+    require={"bulk_cases": 100, "references_held_and_reread": 1000, "instances_destroyed_while_round_was_running": 1000, "window_cases_by_step": 1000, "window_cases_by_site": 100},
     miri_classes=["ub"],
     jobs=lambda t: [
         J("bulk", "native", ["c03", "--part", "bulk"], shards=8, budget_s=q(t, 20, 120)),
@@ -221,7 +221,7 @@ def miri_jobs(names, seeds_each, shards_each):
 
 PLAN["C11"] = dict(
     level="exploration",
-    engines=["Miri (deadlock detection, weak-memory emulation, seeded scheduler) on litmus programs", "native tree-bin hammer with a confirmed blocked-state detector (thread asleep + no progress over two samples)", "serial token-passing scheduler with logical deadlock / livelock verdicts (native)", "quiescent lock-state audit of the free-run rounds (C05) and the parked-writer scenario of C12"],
+    engines=["Miri (deadlock detection, weak-memory emulation, seeded scheduler) on litmus programs", "native tree-bin hammer with a confirmed blocked-state detector (thread asleep + no progress over three samples), a pest thread handing unpark tokens to the writers in every other round, and a lock-state audit after each round", "serial token-passing scheduler with logical deadlock / livelock verdicts and injected spurious park returns (native)", "quiescent lock-state audit of the free-run rounds (C05) and the parked-writer scenario of C12"],
     assumptions=[
         "liveness is restated as bounded progress: a finite program run by Miri's fair seeded scheduler ends, and no execution reaches a state in which every unfinished thread is blocked",
         "Miri explores one schedule per seed; quick is a smoke test, thorough the real exploration (the F6 lost wakeup needed seeds 16 and 131 of 384 on one program)",
